@@ -99,6 +99,81 @@ def rhoProbsOp (enum : Bool) (j : Json) : R Json := do
   return .arr (states.map (fun σ => Codec.out (f (fun a b => (rho[basisIndex a]!)[basisIndex b]!) σ)))
 end
 
+/-! ### the dictionary-resolution entry points (`_unitaries_of`, lookup by letter), Float only -/
+
+/-- a dictionary `[[letter, M2], …]`, or `null` for `None` / "the state has no `unitary_dict`" -/
+def parseDict (j : Json) : R (Option (UDict Float)) :=
+  match j with
+  | .null => pure none
+  | _ => do
+    let es ← (← jArr j).mapM (fun e => do
+      let p ← jArr e
+      if p.size != 2 then throw "dict entry: expected [letter, matrix]"
+      let k ← jStr p[0]!
+      if k.length != 1 then throw "dict key: expected one character"
+      return (k.front, ← parseM2 (α := Float) p[1]!))
+    return some es.toList
+
+def parseBasis (j : Json) (n : Nat) : R (Fin n → Char) := do
+  let s ← jStr j
+  if s.length != n then throw s!"basis: expected {n} letters"
+  let cs := s.toList.toArray
+  return fun k => cs[k.val]!
+
+def dictArgs (j : Json) : R (Σ n : Nat, (Option (UDict Float) × Option (UDict Float) × (Fin n → Char))) := do
+  let n ← jNat (← fld j "n")
+  let given ← parseDict ((j.getObjVal? "given").toOption.getD .null)
+  let own ← parseDict ((j.getObjVal? "own").toOption.getD .null)
+  let basis ← parseBasis (← fld j "basis") n
+  return ⟨n, given, own, basis⟩
+
+def okOut (x : Json) : Json := Json.mkObj [("value", x)]
+
+def rotatePsiDictOp (j : Json) : R Json := do
+  let ⟨n, given, own, basis⟩ ← dictArgs j
+  let psi ← (← jArr (← fld j "psi")).mapM (parseC (α := Float))
+  match rotatePsiD given own basis psi.toList with
+  | .ok res => return okOut (.arr ((Array.range psi.size).map (fun k => outC (res.getD k (0, 0)))))
+  | .error e => return errOut e
+
+def rotateRhoDictOp (j : Json) : R Json := do
+  let ⟨n, given, own, basis⟩ ← dictArgs j
+  let rho ← (← jArr (← fld j "rho")).mapM (fun r => do (← jArr r).mapM (parseC (α := Float)))
+  let N := rho.size
+  if !rho.all (·.size == N) then throw "rho: not square"
+  let rows : List (Row Float) := rho.toList.map (fun r => fun k => r[k]!)
+  match rotateRhoD given own basis rows with
+  | .ok res => return okOut (.arr ((Array.range N).map (fun i => .arr ((Array.range N).map (fun k => outC ((res.getD i (fun _ => (0, 0))) k))))))
+  | .error e => return errOut e
+
+def innerProdDictOp (j : Json) : R Json := do
+  let ⟨n, given, own, basis⟩ ← dictArgs j
+  let psi ← (← jArr (← fld j "psi")).mapM (parseC (α := Float))
+  if psi.size != 2 ^ n then throw "psi: wrong length"
+  let states ← (← jArr (← fld j "states")).mapM (fun s => parseBits s n)
+  let rs := states.map (fun σ => rotatePsiInnerProdD given own basis (fun τ => psi[basisIndex τ]!) σ)
+  match rs.mapM id with
+  | .ok vs => return okOut (.arr (vs.map outC))
+  | .error e => return errOut e
+
+def rhoProbsDictOp (j : Json) : R Json := do
+  let ⟨n, given, own, basis⟩ ← dictArgs j
+  let rho ← (← jArr (← fld j "rho")).mapM (fun r => do (← jArr r).mapM (parseC (α := Float)))
+  if rho.size != 2 ^ n || !rho.all (·.size == 2 ^ n) then throw "rho: wrong shape"
+  let states ← (← jArr (← fld j "states")).mapM (fun s => parseBits s n)
+  let rs := states.map (fun σ => rotateRhoProbsD given own basis (fun a b => (rho[basisIndex a]!)[basisIndex b]!) σ)
+  match rs.mapM id with
+  | .ok vs => return okOut (.arr (vs.map fOut))
+  | .error e => return errOut e
+
+/-- op `c04.vector_states`: outcome class of a fast path called with ONE 1-D state -/
+def vectorStatesOp (j : Json) : R Json := do
+  let probs ← jBool (← fld j "probs")
+  let anyRot ← jBool (← fld j "any_rotated")
+  match vectorStatesOutcome (if probs then .rhoProbs else .innerProd) anyRot with
+  | .ok () => return Json.mkObj [("ok", .bool true)]
+  | .error e => return errOut e
+
 /-- the model's default dictionary evaluated in Float -/
 def dictOp : Json :=
   let m (u : M2 Float) : Json :=
@@ -122,6 +197,11 @@ def handle (op : String) (j : Json) : Option (R Json) :=
   | "c04.expand" => some (expandOp (α := Float) j)
   | "c04.expand_int" => some (expandOp (α := Int) j)
   | "c04.dict" => some (pure dictOp)
+  | "c04.vector_states" => some (vectorStatesOp j)
+  | "c04.rotate_psi_dict" => some (rotatePsiDictOp j)
+  | "c04.rotate_rho_dict" => some (rotateRhoDictOp j)
+  | "c04.inner_prod_dict" => some (innerProdDictOp j)
+  | "c04.rho_probs_dict" => some (rhoProbsDictOp j)
   | _ => none
 
 end Drv.C04
